@@ -34,7 +34,7 @@ def permute_branches(w, rng):
 def gen_base(seed, i, tier):
     rng = Rng(seed * 3267000013 + i)
     g = gen.WfGen(rng.fork("wf"), depth=rng.pick([1, 2, 2, 3]), max_steps=rng.range(1, 4), max_branches=3, max_acts=rng.range(1, 3), p_if=25,
-                  p_branches=50, needs="cond" if i % 3 == 0 else False, mixed=False, two_else=False, act_kinds=((gen.IRQ, 5), (gen.MSG, 2)))
+                  p_branches=50, needs="cond" if i % 3 == 0 else False, mixed=(i % 4 == 1), two_else=False, act_kinds=((gen.IRQ, 5), (gen.MSG, 2)))
     return g.workflow("m1"), g.exprs, rng
 
 
@@ -124,7 +124,12 @@ def run_batch(ctx, bases, stats):
         if '"needs"' in json.dumps(sc["models"][0]):
             stats["with_needs"] += 1
         bad = False
-        for (i, d), pt in zip(pts, rf.get("points", [])):
+        finished_run = bool(pts) and not any(t["state"] in ("interrupted", "running", "ready", "pending", "none") for t in pts[-1][1]["tasks"])
+        for pi, ((i, d), pt) in enumerate(zip(pts, rf.get("points", []))):
+            if rf.get("final_only") and not (finished_run and pi == len(pts) - 1):
+                # a step with acts beside an else branch: when the else branch is decided depends on the schedule, the outcome does not
+                stats["points_skipped_schedule_dependent"] = stats.get("points_skipped_schedule_dependent", 0) + 1
+                continue
             stats["points"] += 1
             eng = sorted((t["nid"], t["state"]) for t in d["tasks"])
             want = sorted((a, b) for a, b in pt["states"])
